@@ -548,8 +548,10 @@ Proof.
   - rewrite hex_enc_cons in E. discriminate E.
   - rewrite hex_enc_cons in E. discriminate E.
   - rewrite !hex_enc_cons in E. injection E as E1 E2 E3.
-    pose proof (unhex2_hex c) as Hc. pose proof (unhex2_hex d) as Hd.
-    rewrite E1, E2 in Hc. f_equal; [congruence | apply IH; exact E3].
+    assert (Hcd : unhex2 (hexdigit (nat_of_ascii c / 16)) (hexdigit (nat_of_ascii c mod 16)) =
+                  unhex2 (hexdigit (nat_of_ascii d / 16)) (hexdigit (nat_of_ascii d mod 16)))
+      by exact (f_equal2 unhex2 E1 E2).
+    rewrite !unhex2_hex in Hcd. f_equal; [exact Hcd | apply IH; exact E3].
 Qed.
 Lemma hex_enc_no_us x : ~ In ch_us (hex_enc x).
 Proof.
